@@ -449,7 +449,7 @@ CHECKS = {
         "assumptions": ["HMAC-SHA256 and TLS exporter soundness"],
         "units": [
             {"name": "app", "pkg": "./internal/app", "run": "^TestVerifC08",
-             "quick": {"checks": 60, "shards": 8, "timeout": 900},
+             "quick": {"checks": 36, "shards": 8, "timeout": 900},
              "thorough": {"checks": 600, "shards": 16, "timeout": 3400}},
         ],
     },
